@@ -1,5 +1,6 @@
 import Driver.Common
 import TransportVerif.Model.Ctx
+import TransportVerif.Link.Ctx
 /- driver component `ctx` (C17):
    case <id> <flavour>
    ops: begin r|w <want> <ctx already cancelled 0|1> | m | w | wc | cancel | data <k>
@@ -16,6 +17,8 @@ structure St where
   rAvail : Nat
   wAvail : Nat
   active : Bool
+  streamWrites : Bool := true                  -- flavour: conn and connctx write streams, the packet wrapper datagrams
+  q : Option (Nat × Bool × Bool) := none       -- a second operation queued on the wrapper's mutex: want, cancelled, has been scheduled
 
 def mpc : MPc → String
   | .start => "start" | .inCall => "inCall" | .atWait => "atWait" | .parkedWait => "parkedWait" | .finished => "finished"
@@ -23,6 +26,11 @@ def wpc : WPc → String
   | .none => "none" | .start => "start" | .atSelect => "atSelect" | .parkedSelect => "parkedSelect"
   | .atRecv => "atRecv" | .parkedRecv => "parkedRecv" | .exited => "exited"
 def errStr : Err → String | .nil => "nil" | .timeout => "timeout" | .ctx => "ctx"
+
+def qStr (st : St) : String :=
+  match st.q with
+  | none => "-"
+  | some (_, _, granted) => if granted then "lockWait" else "start"
 
 def show_ (o : Op) : String :=
   "M=" ++ mpc o.main ++ " W=" ++ wpc o.watcher ++ " old=" ++ (if o.deadlineOld then "1" else "0") ++ " avail=" ++ toString o.avail ++
@@ -33,13 +41,15 @@ def kv (s : String) : String := ((s.splitOn "=").getD 1 "")
 /-- C17 on the implementation's own report of a completed operation -/
 def judgeFin (f : List String) : String :=
   match f with
-  | [n, err, moved, canc, old, order] =>
-    let n := nat! (kv n); let err := kv err; let moved := nat! (kv moved)
+  | [n, err, moved, canc, old, order, want] =>
+    let n := nat! (kv n); let err := kv err; let moved := nat! (kv moved); let want := nat! (kv want)
     let canc := kv canc == "1"; let old := kv old == "1"
     if n ≠ moved then "reported-" ++ toString n ++ "-bytes-but-" ++ toString moved ++ "-were-transferred"
     else if kv order ≠ "1" then "bytes-out-of-order"
     else if err == "ctx" ∧ !canc then "context-error-without-cancellation"
-    else if err == "timeout" then (if canc then "raw-timeout-instead-of-context-error" else "timed-out-by-a-leftover-deadline")
+    else if err == "ctx" ∧ n ≠ 0 then "context-error-with-bytes"
+    else if err == "timeout" ∧ !canc then "timed-out-by-a-leftover-deadline"
+    else if err == "timeout" ∧ !(0 < n ∧ n < want) then "raw-timeout-instead-of-context-error"
     else if err == "other" then "unexpected-error"
     else if old then "leftover-deadline-on-the-wrapped-connection"
     else if !canc ∧ n == 0 then "returned-without-data-or-cancellation"
@@ -49,7 +59,7 @@ def judgeFin (f : List String) : String :=
 def comp : Component where
   σ := St
   init := { o := Op.new 0 0 false, isRead := true, rAvail := 0, wAvail := 0, active := false }
-  reset := fun _ => { o := Op.new 0 0 false, isRead := true, rAvail := 0, wAvail := 0, active := false }
+  reset := fun cfg => { o := Op.new 0 0 false, isRead := true, rAvail := 0, wAvail := 0, active := false, streamWrites := cfg != ["packet"] }
   step := fun st f =>
     let stepWith (s : Step) (tags : String) : St × String :=
       let o' := step st.o s
@@ -61,19 +71,38 @@ def comp : Component where
            | _ => "returns-other ") else "") ++
         (if o'.deadlineOld ∧ !st.o.deadlineOld then "deadline-forced " else "") ++
         (if !o'.deadlineOld ∧ st.o.deadlineOld then "deadline-restored " else "")
-      ({ st with o := o' }, line4 (show_ o') "-" "*" tags)
+      -- when the operation returns, a queued caller that is already in the mutex goes on by itself
+      let st' := { st with o := o' }
+      ({ st' with o := o' }, line4 (show_ o' ++ " Q=" ++ (if o'.main == .finished ∧ st.q.any (·.2.2) then "inCall" else qStr st')) "-" "*" tags)
     match f with
     | ["begin", rw, want, canc] =>
       let isRead := rw == "r"
       -- bytes the wrapped connection still holds carry over; so would a leftover deadline
       let st1 := if st.active then (if st.isRead then { st with rAvail := st.o.avail } else { st with wAvail := st.o.avail }) else st
-      let o := { Op.new (nat! want) (if isRead then st1.rAvail else st1.wAvail) (canc == "1") with
+      let o := { Op.new (nat! want) (if isRead then st1.rAvail else st1.wAvail) (canc == "1") (!isRead && st.streamWrites) with
                  deadlineOld := st.active ∧ st.o.deadlineOld ∧ st.isRead == isRead }
-      ({ st1 with o := o, isRead := isRead, active := true }, line4 (show_ o) "-" "*" ("begin " ++ (if canc == "1" then "cancelled-before " else "")))
+      let st2 := { st1 with o := o, isRead := isRead, active := true, q := none }
+      (st2, line4 (show_ o ++ " Q=-") "-" "*" ("begin " ++ (if canc == "1" then "cancelled-before " else "") ++ (if !isRead && st.streamWrites then "stream-write " else "")))
+    | ["begin2", want, canc] =>
+      let st' := if st.q.isNone ∧ st.isRead then { st with q := some (nat! want, canc == "1", false) } else st
+      (st', line4 (show_ st'.o ++ " Q=" ++ qStr st') "-" "*" "queued-begin ")
+    | ["m2"] =>
+      -- the queued caller runs into the wrapper's mutex, held by the operation in progress
+      -- (before the first operation's first step nobody holds the mutex: the harness does not schedule that)
+      let st' := if st.o.main == .start then st else { st with q := st.q.map (fun e => (e.1, e.2.1, true)) }
+      (st', line4 (show_ st'.o ++ " Q=" ++ qStr st') "-" "*" "queued-waits-for-mutex ")
+    | ["promote"] =>
+      match st.q with
+      | none => (st, line4 (show_ st.o ++ " Q=-") "-" "*" "promote ")
+      | some (want, canc, granted) =>
+        let o0 := TV.CtxLink.Op.next st.o want canc (!st.isRead && st.streamWrites)
+        let o1 := if granted then step o0 .main else o0
+        let st' := { st with o := o1, q := none }
+        (st', line4 (show_ o1 ++ " Q=-") "-" "*" ("promote " ++ (if granted then "queued-proceeds " else "")))
     | ["m"] =>
       let t := match st.o.main with
         | .start => "spawn "
-        | .inCall => if st.o.deadlineOld then "call-times-out " else if st.o.avail > 0 then (if st.o.cancelled then "call-transfers-after-cancel " else "call-transfers ") else "call-blocks "
+        | .inCall => if st.o.deadlineOld then "call-times-out " else if st.o.avail > 0 then ((if st.o.cancelled then "call-transfers-after-cancel " else "call-transfers ") ++ (if st.o.stream ∧ st.o.n + min st.o.avail (st.o.want - st.o.n) < st.o.want then "partial-write " else "")) else "call-blocks "
         | .atWait => if st.o.watcher == .exited then "wait-free " else "wait-parks "
         | _ => "main-idle "
       stepWith .main t
